@@ -456,7 +456,7 @@ def grid_cases(vers=('20', '31'), small=False):
 
 def correspond(run: Run) -> None:
     rng = run.rng
-    n = run.scale(24000, 400000)
+    n = run.scale(60000, 600000)
     cases = list(CORPUS)
     corpus_file = Path(__file__).resolve().parent.parent / 'corpus' / 'C06' / 'seeds.jsonl'
     if corpus_file.exists():
